@@ -523,13 +523,23 @@ inline std::string input_str(const InputInfo &in) {
 // Deviations on an axis the tag does not specify (or on an unidentified axis of a tag with fewer entries than
 // dimensions) form one coarse class per entry-point family: they are all the same behaviour of the padding of
 // unspecified dimensions, whatever the descriptor kind, the mode and the concrete entry point.
+//
+// When a retrieval with fewer entries than dimensions raises although data is expected, and the raise cannot be
+// attributed to an axis (getOffsetAndCount raises too, or several unspecified axes deviate in different directions),
+// it is filed in the same class: the same (position, extent) entries are also enumerated with as many entries as
+// dimensions, where a wrong raise on a specified axis has its own signature.  The details of the raise (which
+// computed edge is off) stay in the written-out instance, so the one behaviour has few signatures per family:
+//   "... last element earlier" (elements missing), "... last element later" (getOffsetAndCount only), "raised ...".
 inline std::string make_sig(const std::string &prop, const std::string &site, const InputInfo &in, int d, const std::string &assertion, const std::string &dev) {
     const size_t rank = in.arr->axes.size();
-    if (!in.plain && in.pos.size() < rank && (d < 0 || static_cast<size_t>(d) >= in.pos.size())) {
-        if (d < 0) return prop + "|" + in.family + "|fewer position entries than dimensions; axis not identified|" + assertion + "|" + dev;
-        return prop + "|" + in.family + "|fewer position entries than dimensions|unspecified dimension returned in full|" + dev;
-    }
     (void)site; // the concrete entry point is part of the written-out instance
+    if (!in.plain && in.pos.size() < rank && (d < 0 || static_cast<size_t>(d) >= in.pos.size())) {
+        std::string coarse = dev;
+        static const char *const raised[] = {"raised instead of returning data", "raised instead of returning offset and count"};
+        for (const char *r : raised) if (dev.compare(0, std::string(r).size(), r) == 0) coarse = r;
+        return prop + "|" + in.family + "|fewer position entries than dimensions|unspecified dimension returned in full|" + coarse;
+    }
+    (void)assertion;
     return prop + "|" + in.family + "|" + input_class(in, d) + "|" + assertion + "|" + dev;
 }
 
